@@ -384,13 +384,13 @@ def child(d, seed):
             specs = [("insert_one", "a")]
         elif x < 0.68 and ids:
             specs = [("delete", "a", ids.pop(rng.randrange(len(ids))))]
-        elif x < 0.78 and ids:
+        elif x < 0.83 and ids:
             specs = [("replace", "a", rng.choice(ids))]
         elif x < 0.86 and ids:
             specs = [("replace_last", "a")]
         elif x < 0.92:
             ups = tuple(rng.sample(ids, min(len(ids), rng.choice([0, 1, 2]))))
-            specs = [("insert_many", "a", ups, rng.choice([1, 5, 60, 120]))]
+            specs = [("insert_many", "a", ups, rng.choice([1, 5, 20, 60]))]
         elif x < 0.94:
             specs = [("update_bucket", "a", counter)]
         elif x < 0.96:
@@ -418,8 +418,7 @@ def child(d, seed):
             if first:
                 out("READY")
                 first = False
-        if rng.random() < 0.3:
-            time.sleep(0.001)
+        time.sleep(0.001)               # paces the run: the model's replace_last is quadratic in the table size
 
 
 ATOMIC_CALLS = lib.BUCKET_CALLS + lib.SINGLE_EVENT_CALLS
@@ -488,7 +487,7 @@ def kill_run(seed, delay):
             if c[3] is not None and c[2] != n:
                 res["disagreements"].append(f"call #{ci} {c[0]}: {c[2]} write statements logged, the model's script has {n}")
                 return res
-        mine = [len(got[0]), len(got[1]), got[2], got[3], sum(e[4] for e in got[1]), sum(e[2] for e in got[1])]
+        mine = [len(got[0]), len(got[1]), got[2], got[3], sum(e[4] for e in got[1]) % 1000000007, sum(e[2] for e in got[1]) % 1000000007]
         cand = [skip + k for k, dg in enumerate(digests) if dg == mine and skip + k <= logged]
         tables = common.run_driver("C06State", [sx([3, cops, cand])])[0] if cand else []
         J = [j for j, t in zip(cand, tables) if t == got]
